@@ -321,8 +321,12 @@ func (m *Machine) assert(c *Term, id string) {
 			ob.Result = "violated"
 			ob.Trail = append([]int{}, m.trail[:m.tpos]...)
 			ob.Details = "further instance (model search skipped)"
+			ob.Q = q
 		} else {
 			r, mod = m.checkModel(q)
+			if m.job != nil && (mod == nil || !modelValid(mod, q)) {
+				m.job.modelRefund(id)
+			}
 			if r == Unknown {
 				// the abstract query is satisfiable but no concrete witness was found in time
 				ob.Details = "satisfiable with uninterpreted predicates; concrete witness not found within the solver budget"
@@ -387,6 +391,25 @@ func checkModelWith(solver *Solver, e *Engine, fresh map[*Term]bool, prefs map[*
 	seen := map[*Term]bool{}
 	lemmas := []*Term{}
 	t0 := time.Now()
+	if r == Sat && mod != nil && !modelValid(mod, q) {
+		// candidate witnesses: values on which library functions typically differ, for the atoms that
+		// flow into these functions; a candidate is accepted only if the solver finds a model with it
+		// and that model is valid under the native functions
+		tries := 0
+		for _, c := range trickyCandidates(q) {
+			if tries >= 60 || time.Since(t0) > 6*time.Second {
+				break
+			}
+			tries++
+			if r2, mod2 := solver.CheckOn(1, append(append([]*Term{}, q...), c), true); r2 == Sat && mod2 != nil {
+				mod2.UF = e.evalUF
+				if modelValid(mod2, q) {
+					return r2, mod2
+				}
+			}
+		}
+		t0 = time.Now()
+	}
 	for round := 0; round < 8 && r == Sat && mod != nil && !modelValid(mod, q) && time.Since(t0) < 8*time.Second; round++ {
 		added := false
 		for _, l := range pureLemmas(mod, append(append([]*Term{}, q...), lemmas...)) {
@@ -405,18 +428,7 @@ func checkModelWith(solver *Solver, e *Engine, fresh map[*Term]bool, prefs map[*
 			lemmas = append(lemmas, pureAxiomInstances(q)...)
 		}
 		full := append(append([]*Term{}, q...), lemmas...)
-		// candidate witnesses: values on which library functions typically differ, one per atom that
-		// flows into an uninterpreted library function (tried first; dropped when inconsistent)
-		tried := false
-		for _, c := range trickyCandidates(q, round) {
-			if r2, mod2 := checkModelStage(solver, e, fresh, prefs, append(append([]*Term{}, full...), c), true, true); r2 == Sat && mod2 != nil {
-				r, mod, tried = r2, mod2, true
-				break
-			}
-		}
-		if !tried {
-			r, mod = checkModelStage(solver, e, fresh, prefs, full, true, true)
-		}
+		r, mod = checkModelStage(solver, e, fresh, prefs, full, true, true)
 	}
 	return r, mod
 }
